@@ -387,6 +387,36 @@ func c11LegacyDomain(host string) string {
 	return strings.Join(ss, ".")
 }
 
+// c11FixedHostname / c11FixedDomain: copy of the repaired code (fixes/C11-1). Used ONLY to decide
+// whether a disagreement is exactly the known pre-fix behaviour (legacy answer differs from the
+// repaired answer and the implementation gave the legacy answer); never as an oracle.
+func c11FixedHostname(host string) string {
+	return strings.ToLower((&url.URL{Host: host}).Hostname())
+}
+
+func c11FixedDomain(host string) string {
+	host = c11FixedHostname(host)
+	if strings.Contains(host, ":") {
+		return host
+	}
+	host = strings.TrimSuffix(host, ".")
+	if net.ParseIP(host) != nil {
+		return host
+	}
+	ss := strings.Split(host, ".")
+	if len(ss) < 3 {
+		return host
+	}
+	return strings.Join(ss[1:], ".")
+}
+
+// c11IsLegacyAnswer: (h, d) is what the pre-fix code answers for a, and the repaired code
+// answers something else.
+func c11IsLegacyAnswer(a, h, d string) bool {
+	lh, ld := c11LegacyHostname(a), c11LegacyDomain(a)
+	return h == lh && d == ld && (lh != c11FixedHostname(a) || ld != c11FixedDomain(a))
+}
+
 // c11LegacyAffected: the authority is in the input class on which the pre-fix code departs
 // from the oracle.
 func c11LegacyAffected(auth string) bool {
